@@ -26,14 +26,14 @@ func syntheticFrame(typ int) []byte {
 
 type classObs struct {
 	msm4, msm7, msm bool
-	constellation    string
-	hdr              bool
-	analyse          string
-	ts               bool
-	title            bool
-	displayed        bool
-	displayPanic     string
-	htype            int // the type the handler reports for a CRC-valid frame of this type
+	constellation   string
+	hdr             bool
+	analyse         string
+	ts              bool
+	title           bool
+	displayed       bool
+	displayPanic    string
+	htype           int // the type the handler reports for a CRC-valid frame of this type
 }
 
 func classify(typ int) *classObs {
